@@ -165,7 +165,15 @@ class Ctx:
         env = goenv()
         if race:
             env["CGO_ENABLED"] = "1"
-        r = subprocess.run(cmd, cwd=HARNESS, capture_output=True, text=True, env=env)
+        hdir = HARNESS
+        if REPO != "/repo":
+            # seed-matrix runs: the same harness against a scratch worktree of the repository
+            hdir = os.path.join(self.scratch, "harness-copy")
+            if not os.path.exists(hdir):
+                shutil.copytree(HARNESS, hdir)
+                gm = open(os.path.join(hdir, "go.mod")).read().replace("=> /repo", "=> " + REPO)
+                open(os.path.join(hdir, "go.mod"), "w").write(gm)
+        r = subprocess.run(cmd, cwd=hdir, capture_output=True, text=True, env=env)
         if r.returncode != 0:
             # A tree that does not compile cannot be checked: infrastructure, not a violation.
             raise Infra("harness build failed:\n" + r.stdout + r.stderr)
@@ -224,9 +232,10 @@ class Ctx:
             if f.get("property") == self.pid and f.get("status") == "known" and key and f.get("key") == key:
                 self.known_hits.append((f, what))
                 return
-        os.makedirs(os.path.join(VERIF, "evidence", "replays"), exist_ok=True)
+        rdir = os.path.join(os.environ.get("VERIF_EVIDENCE_DIR", os.path.join(VERIF, "evidence")), "replays")
+        os.makedirs(rdir, exist_ok=True)
         h = hashlib.sha1(json.dumps(case, sort_keys=True).encode()).hexdigest()[:10]
-        path = os.path.join(VERIF, "evidence", "replays", "%s-%s.json" % (self.pid, h))
+        path = os.path.join(rdir, "%s-%s.json" % (self.pid, h))
         case = dict(case)
         case["property"] = self.pid
         case["what"] = what
@@ -247,8 +256,9 @@ class Ctx:
             cov["explanation"] = explanation
         ev = dict(property_id=self.pid, tier=self.tier, seed=self.seed, level=self.level, coverage=cov,
                   assumptions=self.assumptions, wall_s=round(wall, 2), violations=len(self.violations))
-        os.makedirs(os.path.join(VERIF, "evidence"), exist_ok=True)
-        with open(os.path.join(VERIF, "evidence", self.pid + ".json"), "w") as fh:
+        evdir = os.environ.get("VERIF_EVIDENCE_DIR", os.path.join(VERIF, "evidence"))
+        os.makedirs(evdir, exist_ok=True)
+        with open(os.path.join(evdir, self.pid + ".json"), "w") as fh:
             json.dump(ev, fh, indent=1)
         seen = set()
         for f, what in self.known_hits:
